@@ -85,6 +85,9 @@ func (q PathQ) Escape() (ssa.Instruction, []*ssa.BasicBlock) {
 			if q.Prune != nil && q.Prune(b, si) {
 				continue
 			}
+			if infeasibleEdge(b, si) {
+				continue
+			}
 			push(s, b, 0, qi)
 		}
 	}
